@@ -155,7 +155,10 @@ def key_op(op):
             base = base[:-len(suf)]
     if "." in base and base.split(".")[0] in ("i32", "i64", "f32", "f64"):
         t, name = base.split(".", 1)
-        for fam in ("div", "rem", "trunc_sat", "load", "store"):
+        for fam in ("load", "store"):
+            if name.startswith(fam):
+                return fam
+        for fam in ("div", "rem", "trunc_sat"):
             if name.startswith(fam):
                 return t[0] + "*." + fam
         if name.startswith("trunc_f"):
@@ -211,7 +214,7 @@ def build_plain(sec, units, base_wit):
     for j, (op, ft, body, cs) in enumerate(units):
         for ci, args in enumerate(cs):
             calls.append(("e%d" % j, list(args), ft.results[0] if ft.results else None, False))
-            info.append({"op": op, "unit": op, "ci": ci})
+            info.append({"op": op.split("|")[0], "unit": op, "ci": ci})
     return {"sec": sec, "m": m, "calls": calls, "info": info, "stateless": True, "wit": base_wit,
             "units": units, "rebuild": lambda us: build_plain(sec, us, base_wit)}
 
@@ -414,7 +417,7 @@ def extra_cases():
     gl = [W.Glob(F64, False, W.const(F64, 0xFFF8000000000000)), W.Glob(F32, True, W.const(F32, 0x7F800000))]
     fs = [(FT((), (F64,)), (), [Ins("global.get", 0)]), (FT((), (F32,)), (), [Ins("global.get", 1)])]
     case("globals-nonfinite", fs, [("e0", [], F64), ("e1", [], F32)], {"globs": gl, "exports": [("g0", "global", 0), ("g1", "global", 1)]})
-    cunits = [("const-%s-%s" % (vt, lab), FT((), (vt,)), [W.const(vt, v)], [()]) for vt, lab, v in (
+    cunits = [("const-nonfinite|%s-%s" % (vt, lab), FT((), (vt,)), [W.const(vt, v)], [()]) for vt, lab, v in (
         (F64, "nan", 0x7FF8000000000000), (F64, "inf", 0x7FF0000000000000), (F64, "neg-inf", 0xFFF0000000000000), (F32, "nan", 0x7FC00000),
         (F32, "neg-inf", 0xFF800000), (F64, "big", f64b(1e308)), (F32, "neg-zero", f32b(-0.0)), (F64, "denormal", 1))]
     out.append(("consts-nonfinite", lambda: build_plain("X", cunits, {"name": "consts-nonfinite"})))
@@ -671,7 +674,8 @@ def execute(emit, case, wasm, spec, todo, risky, target):
         nt = len(todo)
         while pos < nt:
             i = todo[pos]
-            if not risky[i]:
+            if not risky[i] or (target == "python" and case["stateless"]):
+                # (generated Python code cannot kill the process, and stateless cases have no state to protect)
                 emit(("begin", i))
                 emit(("call", i, perform(i)))
                 pos += 1
